@@ -176,10 +176,11 @@ def _domain(prog):
     # rejection predicate: conditions whose true edge frees the node and returns NULL
     rejects = []
     for s in f.walk():
-        if s["k"] == "if" and any(True for _ in calls_in(s["t"], "rnode_free")) and \
-                any(r["k"] == "return" for r in walk(s["t"])):
-            if any(m["k"] == "member" and m["field"] in rng for m in walk(s["c"])):
-                rejects.append(s["c"])
+        if s["k"] != "if" or s.get("t") is None:
+            continue
+        direct = s["t"]["body"] if s["t"]["k"] == "block" else [s["t"]]
+        if any(is_call(x, "rnode_free") for x in direct) and any(x["k"] == "return" for x in direct):
+            rejects.append(s["c"])
     return rng, rejects
 
 
